@@ -786,6 +786,36 @@ func (c *Chain) NewDepositor(amount common.Gwei, eth1 bool) KeyNum {
 	return k
 }
 
+// BadDepositor queues a deposit that process_deposit must skip (the block stays valid, no validator appears):
+// proof of possession by another key / under another domain / unparseable, or an undecodable public key.
+func (c *Chain) BadDepositor() string {
+	k := c.nextStray
+	c.nextStray++
+	g := GenVal{Key: k, WKey: 0, Addr: addrOf(k)}
+	amount := c.Spec.MAX_EFFECTIVE_BALANCE
+	kind := pick(c.Rng, "wrong_key", "wrong_domain", "garbage_signature", "bad_pubkey")
+	var dd common.DepositData
+	switch kind {
+	case "wrong_key":
+		dd = DepositDataFor(c.Spec, c.BLS, PubOf(k), g.Credentials(), amount, k+1)
+		c.nextStray++
+		c.BLS.UseKey(k)
+	case "wrong_domain":
+		dd = common.DepositData{Pubkey: c.BLS.UseKey(k), WithdrawalCredentials: g.Credentials(), Amount: amount}
+		dom := common.ComputeDomain(common.DOMAIN_DEPOSIT, c.Spec.ALTAIR_FORK_VERSION, c.GVR)
+		dd.Signature = c.BLS.Sign1(k, common.ComputeSigningRoot(dd.MessageRoot(), dom))
+	case "garbage_signature":
+		dd = common.DepositData{Pubkey: c.BLS.UseKey(k), WithdrawalCredentials: g.Credentials(), Amount: amount}
+		copy(dd.Signature[:], c.Rng.Bytes(96))
+	default:
+		dd = DepositDataFor(c.Spec, c.BLS, PubOf(k), g.Credentials(), amount, k)
+		dd.Pubkey = badPubkey(c.Rng)
+	}
+	c.QueueDeposit(dd)
+	c.Stats.Inc("deposits_queued_to_be_skipped_" + kind)
+	return kind
+}
+
 // TopUp queues a deposit for an existing validator (signature deliberately sometimes invalid: it is not checked).
 func (c *Chain) TopUp(v common.ValidatorIndex, amount common.Gwei) {
 	info := c.Vals[v]
@@ -1142,9 +1172,11 @@ func (c *Chain) defaultOps(p *ProposeCtx) {
 	if r.Chance(rate.Deposit) {
 		k := 1 + r.Intn(3)
 		for i := 0; i < k; i++ {
-			switch r.Intn(4) {
+			switch r.Intn(5) {
 			case 0:
 				c.TopUp(common.ValidatorIndex(r.Intn(len(c.Vals))), c.Spec.MIN_DEPOSIT_AMOUNT*common.Gwei(1+r.Intn(3)))
+			case 1:
+				c.BadDepositor()
 			default:
 				amt := c.Spec.MAX_EFFECTIVE_BALANCE
 				if r.Chance(25) {
